@@ -172,17 +172,6 @@ def isa_classes():
     return out
 
 
-def pseudo_classes():
-    from ppci.api import get_arch
-    from ppci.arch.generic_instructions import ArtificialInstruction
-    out = []
-    for c in get_arch("x86_64").isa.instructions:
-        if getattr(c, "syntax", None) is not None and issubclass(c, ArtificialInstruction) \
-                and c.__module__.startswith("ppci.arch.x86_64"):
-            out.append((c.__name__, c))
-    return out
-
-
 def reg_pool(c):
     return list(c.registers)
 
@@ -194,10 +183,6 @@ IMMS = [-1, 0, 1, 127, 128, 255, 256, -128, -129, 32767, 32768, 65535, 65536, 2 
 REL_DISTANCES = [0, 1, -1, 5, 127, 128, 129, -126, -127, -128, -129, -130, 0x12345, -0x12345]
 SYMS = [0, 0x1000, 0x7FFFFFFF, 0x80000000, 0x123456789A, 2 ** 63 + 5]
 SPECIAL_BASES = ("rax", "rsp", "rbp", "r12", "r13")
-
-
-def int_class(value, lo, hi):
-    return "in" if lo <= value <= hi else "out"
 
 
 class Slot:
@@ -254,7 +239,7 @@ def build(cls, rmname, mode, slots, values):
 
 def _default_reg(pool, k):
     """Distinct, unremarkable defaults (rbx, rcx, rdx / their sub-registers) where the pool has them."""
-    pref = ("bx", "cx", "dx", "si", "di") if True else ()
+    pref = ("bx", "cx", "dx", "si", "di")
     names = {r.name: r for r in pool}
     order = []
     for stem in pref:
@@ -435,8 +420,8 @@ def rw_records(prop, rng, thorough, only_classes=None):
         if ins is None:
             skip("not constructible:%s:%s" % (cname, err))
             continue
-        if "out-of-range" in it["tag"] or it["tag"].startswith("address.") or it["tag"].startswith("distance."):
-            continue  # the register sets do not depend on the integer operands: one in-range value each is enough
+        if it["tag"].split(".")[0].split("-")[0] in ("disp", "addr", "imm", "address", "distance"):
+            continue  # the register sets do not depend on the integer operands: the default value of each is enough
         try:
             uses, defs, clob = _names(ins.used_registers), _names(ins.defined_registers), _names(getattr(ins, "clobbers", []))
         except Exception as e:
@@ -861,15 +846,16 @@ def c07_part(ctx, thorough):
     if mine is False:
         return False
     ctx.cov["rule_x86_64"] = (
-        "the instances of C08's x86_64 part (every class x addressing mode x register sweeps; one in-range value per integer "
-        "operand); ppci supplies the bytes and the names of used_registers / defined_registers / clobbers; TLC: ExplReads / "
+        "the instances of C08's x86_64 part without the integer-operand sweeps (every class x addressing mode x register "
+        "sweeps, diagonals, thorough: seeded random registers; one in-range value per integer operand); ppci supplies the bytes and the names of used_registers / defined_registers / clobbers; TLC: ExplReads / "
         "ImplReads of X64.Decode(bytes) within the families of the declared reads, ExplWrites / ImplWrites within the declared "
         "writes + clobbers (al/ah/ax/eax/rax one family, xmm n single/double one family); distinct = distinct (class, mode, "
         "tag, printed text)")
     ctx.assume("x86_64: declared registers are read by their printed name; rsp as used by push / pop / call / ret, rip and the "
                "flags are fixed implicit state; a partial write (al, ax, movss xmm, xmm) is not a read of the full register")
     if mine is None:
-        laws(ctx, ["tab", "enc", "kat"], thorough, which=["LawTable", "LawRegSets", "LawKat", "LawRwKat"] if not thorough else None)
+        # (the laws of the decoder itself are checked by C08; here: the table, the register-set laws and the known answers)
+        laws(ctx, ["tab", "enc", "kat"], thorough, which=["LawTable", "LawRegSets", "LawKat", "LawRwKat"])
     recs, skipped = rw_records("C07", _rng(ctx, 64), thorough)
     n = sum(skipped.values())
     if n:
